@@ -141,6 +141,10 @@ def matches_known(pid: str, viol: dict, known: list[dict]):
                 continue
         if "input" in mt and mt["input"] != viol.get("input"):
             continue
+        # a finding is one specific failure on that input, not every failure on it (e.g. C10: an over-long numeral *rejected with the parser's
+        # own exception*; the same input escaping as ValueError is another violation and must be reported)
+        if "what_regex" in mt and not re.search(mt["what_regex"], str(viol.get("what", ""))):
+            continue
         return k
     return None
 
